@@ -32,11 +32,11 @@ def tla_set(xs):
     return "{" + ", ".join(json.dumps(x) if isinstance(x, str) else str(x) for x in xs) + "}"
 
 
-def gen_cfg(ctx, name, pset, sks, hzs, blen, randomized):
+def gen_cfg(ctx, name, pset, sks, hzs, blen, randomized, qset=(0,)):
     p = ctx.path(name)
     open(p, "w").write(
         "SPECIFICATION Spec\nCONSTANTS\n"
-        f"  PSet = {tla_set(pset)}\n  Skeletons = {tla_set(sks)}\n  Hazards = {tla_set(hzs)}\n"
+        f"  PSet = {tla_set(pset)}\n  QSet = {tla_set(qset)}\n  Skeletons = {tla_set(sks)}\n  Hazards = {tla_set(hzs)}\n"
         f"  BlockLen = {blen}\n  Randomized = {'TRUE' if randomized else 'FALSE'}\n"
         "INVARIANTS WellDefined Export\n")
     return p
@@ -64,6 +64,26 @@ fix("x86:cmpxchg-accumulator-not-written", 1, r"""
    { InstDB::RWInfo::kCategoryGeneric   , 15, { 4 , 23, 18, 24, 25, 0  } }, // #17 [ref=1x]
    { InstDB::RWInfo::kCategoryGeneric   , 12, { 26, 27, 28, 29, 30, 0  } }, // #18 [ref=1x]
    { InstDB::RWInfo::kCategoryGeneric   , 0 , { 28, 31, 32, 16, 0 , 0  } }, // #19 [ref=1x]
+""")
+
+
+fix("ra:consecutive-out-overwrites-live-register", 2, r"""
+--- a/asmjit/core/ralocal.cpp
++++ b/asmjit/core/ralocal.cpp
+@@ -991,6 +991,13 @@ Error RALocalAllocator::alloc_instruction(InstNode* node) noexcept {
+             uint32_t consecutive_index = best_lead_reg + i;
+             RATiedReg* tied_reg = consecutive_regs[i];
+             tied_reg->set_out_id(consecutive_index);
++
++            // The chosen register may still hold a live value - it must be spilled before it's overwritten.
++            RAWorkId occupant_id = _cur_assignment.phys_to_work_id(group, consecutive_index);
++            if (occupant_id != kBadWorkId) {
++              ASMJIT_PROPAGATE(on_spill_reg(group, work_reg_by_id(occupant_id), occupant_id, consecutive_index));
++              live_regs &= ~Support::bit_mask<RegMask>(consecutive_index);
++            }
+           }
+         }
+       }
 """)
 
 
@@ -216,13 +236,14 @@ def leg2(ctx, bdir):
         ctx.log(f"exhaustive enumeration: {len(progs)} programs, {r.distinct} states")
     # (b) simulation: skeleton x pressure x hazard mix
     plan = [
-        ("lo", list(range(1, 15)), 6, 60 if q else 500),
-        ("mid", list(range(12, 41)), 5, 80 if q else 700),
+        ("lo", list(range(1, 15)), 6, 60 if q else 500, (0,)),
+        ("mid", list(range(12, 41)), 5, 80 if q else 700, (0,)),
+        ("vec", [3, 6, 10, 14, 20], 5, 80 if q else 700, (4, 10, 15, 17, 20, 30, 40)),
     ]
     if not q:
-        plan.append(("hi", [48, 64, 96, 128, 160, 200], 6, 150))
-    for name, pset, blen, num in plan:
-        cfg = gen_cfg(ctx, f"gen_{name}.cfg", pset, ALL_SK, ALL_HZ, blen, True)
+        plan.append(("hi", [48, 64, 96, 128, 160, 200], 6, 150, (0, 24)))
+    for name, pset, blen, num, qset in plan:
+        cfg = gen_cfg(ctx, f"gen_{name}.cfg", pset, ALL_SK, ALL_HZ, blen, True, qset)
         workers = 4
         r = vlib.run_tlc(ctx, GEN, cfg, workers=workers, timeout=600, heap="4g", tag=f"gen_{name}",
                          simulate=max(1, num // workers), depth=6000, seed=ctx.seed)
@@ -305,10 +326,18 @@ def leg2(ctx, bdir):
 ARCHS = ["x64", "x86", "a64"]
 
 
-def record_and_translate(ctx, exe, arch, progs_path, tag, extra_args=()):
-    """-> (list of RegAlloc.tla function records, Counter of unsupported reasons, number recorded)"""
+def record_and_translate(ctx, exe, arch, progs_path, tag, gen=None):
+    """-> (list of RegAlloc.tla function records, dict of unsupported reasons, number recorded).
+    gen = (seed, count): the harness's own seeded generator instead of a program file.  Crashes of the allocator are
+    returned under the reason key 'CRASH' as a list of function ids."""
     rp = ctx.path(f"{tag}_rec_{arch}.ndjson")
-    p = subprocess.run([exe, "record", arch, progs_path, rp] + list(extra_args), capture_output=True, text=True, timeout=1200)
+    if gen and gen[0] == "tests":
+        cmd = [exe, "recordtests", arch, rp]
+    elif gen:
+        cmd = [exe, "recordgen", arch, rp, str(gen[0]), str(gen[1])]
+    else:
+        cmd = [exe, "record", arch, progs_path, rp]
+    p = subprocess.run(cmd, capture_output=True, text=True, timeout=1800)
     if p.returncode != 0:
         raise Broken(f"regalloc record {arch} failed rc={p.returncode}: {p.stderr[-400:]}")
     out, why, n = [], {}, 0
@@ -323,6 +352,8 @@ def record_and_translate(ctx, exe, arch, progs_path, tag, extra_args=()):
                 out.append(c05_tv.translate(rec))
             except c05_tv.Unsupported as e:
                 why[str(e)] = why.get(str(e), 0) + 1
+            except c05_tv.Crashed:
+                why.setdefault("CRASH", []).append(rec["id"])
     return out, why, n
 
 
@@ -345,7 +376,7 @@ def judge_tv(ctx, tv_path, mode, tag, workers=6, timeout=1500):
 def tv_single(ctx, exe, arch, prog_rec, tag):
     """record + translate + strict TLC for one program with `exe`.  True = accepted, False = rejected, None = unsupported."""
     pp = ctx.path(f"{tag}.prog.ndjson")
-    vlib.write_ndjson(pp, [{k: prog_rec[k] for k in ("id", "meta", "prog", "inputs")}])
+    vlib.write_ndjson(pp, [dict({k: prog_rec[k] for k in ("id", "meta", "prog", "inputs")}, tv_arch=arch)])
     fns, why, n = record_and_translate(ctx, exe, arch, pp, tag)
     if not fns:
         return None, pp
@@ -363,6 +394,8 @@ def leg1(ctx, bdir, progs):
     total, unsupported, rejected = 0, {}, 0
     for arch in ARCHS:
         fns, why, n = record_and_translate(ctx, exe, arch, pp, "leg1")
+        if why.get("CRASH"):
+            raise Broken(f"{arch}: the allocator crashed on Leg-2 programs {why['CRASH'][:5]} (see leg1_rec_{arch}.ndjson)")
         total += len(fns)
         for k, v in why.items():
             unsupported[f"{arch}: {k}"] = unsupported.get(f"{arch}: {k}", 0) + v
@@ -411,12 +444,72 @@ def leg1(ctx, bdir, progs):
     ctx.extra["leg1_unsupported"] = unsupported
 
 
+def leg1_gen(ctx, bdir, tests=False):
+    """Leg 1 on the harness's seeded generator (mixed register classes and sizes, partial writes, same-register idioms,
+    a64 ld1/ld2/st1/tbl register lists that need consecutive registers), or (tests=True) on the functions of the
+    repository's asmjit_test_compiler_x86.cpp / _a64.cpp."""
+    exe = os.path.join(bdir, "regalloc")
+    count = 40 if ctx.quick else 500
+    src = "tests" if tests else "gen"
+    for arch in (("x64", "x86", "a64") if tests else ("x64", "a64")):
+        g = ("tests",) if tests else (ctx.seed, count)
+        fns, why, n = record_and_translate(ctx, exe, arch, None, src, gen=g)
+        crashed = why.pop("CRASH", [])
+        if tests:
+            crashed = []          # test functions are written for the host architecture; not every one is valid elsewhere
+        tp = ctx.path(f"{src}_tv_{arch}.ndjson")
+        vlib.write_ndjson(tp, fns)
+        r, rej = judge_tv(ctx, tp, "report", f"tv{src}_{arch}")
+        ctx.states += r.distinct
+        ctx.transitions += r.generated
+        ctx.traces += len(fns) - len(rej)
+        for f in fns:
+            ctx.distinct.add((src, arch, f["fid"], len(f["code"])))
+        ctx.log(f"leg 1 {src} {arch}: {len(fns)} of {n} functions explored ({r.distinct} states), {len(rej)} rejected, "
+                f"{len(crashed)} allocator crashes, unsupported: {why}")
+        ctx.extra[f"{src}_{arch}_functions"] = len(fns)
+        ctx.extra[f"{src}_{arch}_rejected"] = len(rej)
+        ctx.extra[f"{src}_{arch}_crashed"] = len(crashed)
+        ctx.extra[f"{src}_{arch}_unsupported"] = why
+        bad = sorted(set(rej) | set(crashed))
+        remaining = list(bad)
+        for k in sorted(k for k in ctx.known if k in FIXES):
+            if not remaining:
+                break
+            vexe = variant_binary(ctx, bdir, [k])
+            if not vexe:
+                continue
+            vf, vwhy, _ = record_and_translate(ctx, vexe, arch, None, f"{src}attr_{FIXES[k]['n']}", gen=g)
+            vcr = set(vwhy.get("CRASH", []))
+            tp2 = ctx.path(f"{src}attr_{arch}_{FIXES[k]['n']}.tv.ndjson")
+            vlib.write_ndjson(tp2, [f for f in vf if f["fid"] in set(remaining)])
+            _, still = judge_tv(ctx, tp2, "report", f"tv{src}attr_{arch}_{FIXES[k]['n']}", workers=4)
+            ok_ids = {f["fid"] for f in vf} - set(still) - vcr
+            fixed = [i for i in remaining if i in ok_ids]
+            if fixed:
+                ctx.known_finding(k, ctx.known[k])
+                ctx.log(f"leg 1 {src} {arch}: {len(fixed)} failing functions pass with proposed fix {FIXES[k]['n']} applied -> known finding {k}")
+            remaining = [i for i in remaining if i not in ok_ids]
+        for fid in remaining[:4]:
+            rp = ctx.path(f"{src}_{arch}_{fid}.replay.ndjson")
+            vlib.write_ndjson(rp, [{"gen": src, "arch": arch, "seed": ctx.seed, "count": count, "fid": fid}])
+            if fid in crashed:
+                ctx.violation(f"{arch}: the register allocator crashes (or hangs) on {src} function {fid} (seed {ctx.seed}) "
+                              f"(valid program with register lists / mixed register classes); {len(remaining)} unexplained", rp)
+            else:
+                pc, what = rej[fid]
+                ctx.violation(f"{arch}: translation validation rejects {src} function {fid} (seed {ctx.seed}): at op {pc} the instruction reads "
+                              f"{what} (location, virtual register) but the location does not hold that register's value; {len(remaining)} unexplained", rp)
+
+
 def run(ctx):
     write_fixes(ctx)
     bdir = ctx.build("plain", "regalloc")
     progs = leg2(ctx, bdir)
     sel = progs if ctx.quick else progs[-1500:]
     leg1(ctx, bdir, sel)
+    leg1_gen(ctx, bdir)
+    leg1_gen(ctx, bdir, tests=True)
     ctx.assumptions += [
         "Leg 1 takes operand access kinds (read/write, byte masks) from asmjit's InstAPI::query_rw_info, except cmpxchg's accumulator (Intel SDM)",
         "Leg 1 starts from the calling convention's argument locations and ends at the return; prolog/epilog correctness is C07's, argument classification C06's",
@@ -435,7 +528,23 @@ def replay(ctx, path):
     recs = vlib.read_ndjson(path)
     exe = os.path.join(bdir, "regalloc")
     for n, rec in enumerate(recs):
-        if "prog" in rec:
+        if "gen" in rec:
+            g = ("tests",) if rec["gen"] == "tests" else (rec["seed"], rec["count"])
+            fns, why, _ = record_and_translate(ctx, exe, rec["arch"], None, f"replay{n}", gen=g)
+            if rec["fid"] in why.get("CRASH", []):
+                ctx.violation(f"replay: allocator still crashes on {rec['gen']} function {rec['fid']}", path)
+                continue
+            tp = ctx.path(f"replay{n}.tv.ndjson")
+            vlib.write_ndjson(tp, [f for f in fns if f["fid"] == rec["fid"]])
+            _, rej = judge_tv(ctx, tp, "strict", f"replay{n}", workers=1)
+            if rej:
+                ctx.violation(f"replay: {rec['gen']} function {rec['fid']} still rejected", path)
+            continue
+        if "prog" in rec and "tv_arch" in rec:
+            ok, _ = tv_single(ctx, exe, rec["tv_arch"], rec, f"replay{n}")
+            if ok is False:
+                ctx.violation(f"replay: {rec['tv_arch']} translation validation still rejects program {rec.get('id')}", path)
+        elif "prog" in rec:
             ok, sop = strict_single(ctx, exe, rec, f"replay{n}")
             if not ok:
                 ctx.violation(f"replay: program {rec.get('id')} still disagrees", sop)
